@@ -322,7 +322,7 @@ class History(Scenario):
             if e[0] == "err" or g[0] == "err":
                 ctx.true(f"{qn}: same outcome as a fresh model", g[0] == e[0] and (g[0] == "ok" or g[1] == e[1]), info=f"edited={g[0]}:{g[1] if g[0] == 'err' else ''} fresh={e[0]}:{e[1] if e[0] == 'err' else ''}")
                 continue
-            ctx.true(f"{qn}: same keys as a fresh model", list(g[1]) == list(e[1]), info=f"{list(g[1])} vs {list(e[1])}")
+            ctx.true(f"{qn}: same keys as a fresh model", set(g[1]) == set(e[1]) and (qn != "__call__(S,T)" or list(g[1]) == list(e[1])), info=f"{list(g[1])} vs {list(e[1])}")
             for k in e[1]:
                 if k in g[1]:
                     gv, ev = g[1][k], e[1][k]
